@@ -467,6 +467,8 @@ type symEnv struct {
 	wraps []string
 	// havocLoops: loops are over-approximated (variables assigned in them become unknown)
 	havocLoops bool
+	// zeroTrip: every loop is taken to run zero times (the evaluation is for inputs that make it so)
+	zeroTrip bool
 	onLoop     func(st *symState, loop ast.Stmt)
 	onAssign   func(st *symState, lhs ast.Expr, rhs ast.Expr)
 	// loopBody: the interpreted block is one iteration of a loop (continue/break end the path)
@@ -1391,6 +1393,13 @@ func (e *symEnv) execCore(st *symState, s ast.Stmt) []*symState {
 		e.problem("unsupported branch statement %s", s.Tok)
 		return nil
 	case *ast.ForStmt, *ast.RangeStmt:
+		if e.zeroTrip {
+			// the inputs are such that no loop body runs (empty operands): only the init statement counts
+			if fs, ok := s.(*ast.ForStmt); ok && fs.Init != nil {
+				return e.exec(st, fs.Init)
+			}
+			return []*symState{st}
+		}
 		if e.havocLoops {
 			if e.onLoop != nil {
 				e.onLoop(st, s)
